@@ -156,4 +156,15 @@ def RoundOkN (P : Params) : Nat → St → Bool
   | 0, _ => true
   | n+1, s => (outstanding s == 0 || RoundOk P s) && RoundOkN P n (healed P s)
 
+/-- the receive queue is pop-normalised: the TSN right after the cumulative point is not held (true after every
+`handleData` that did not end in a reassembly error) -/
+def Normal (r : Receiver.St) : Bool := !RecvQ.hasChunk r.pq (r.pq.cum + 1)
+
+/-- the receiver-side premises of one healed round of an HONEST run: `RoundOk` without `InSync` -/
+def RoundOkH (P : Params) (s : St) : Bool := s.rcv.state == 3#32 && Room s.rcv && Normal s.rcv && HeadOk P s
+
+def RoundOkHN (P : Params) : Nat → St → Bool
+  | 0, _ => true
+  | n+1, s => (outstanding s == 0 || RoundOkH P s) && RoundOkHN P n (healed P s)
+
 end NetSys
